@@ -12,8 +12,8 @@ Window == 2
 (* which signatures are planted in which input: x1 -> b1 ; x2 -> b2 and l1 ; x3 -> l2 ; x4 -> c1 ; anything else -> none.  Variants (suffix U = case
    changed, E = embedded in benign text, H = hostile decoration) carry the same signatures as their base. *)
 Base(x) == CASE x \in {"x1", "x1U", "x1E", "x1H", "x1L"} -> "x1" [] x \in {"x2", "x2U", "x2E", "x2H", "x2L"} -> "x2" [] x \in {"x3", "x3U", "x3E", "x3L"} -> "x3"
-             [] x \in {"x4", "x4U", "x4E"} -> "x4" [] OTHER -> "x0"
-Planted(x) == CASE Base(x) = "x1" -> {"b1"} [] Base(x) = "x2" -> {"b2", "l1"} [] Base(x) = "x3" -> {"l2"} [] Base(x) = "x4" -> {"c1"} [] OTHER -> {}
+             [] x \in {"x4", "x4U", "x4E"} -> "x4" [] x = "x5" -> "x5" [] x = "x6" -> "x6" [] OTHER -> "x0"
+Planted(x) == CASE Base(x) = "x1" -> {"b1"} [] Base(x) = "x2" -> {"b2", "l1"} [] Base(x) = "x3" -> {"l2"} [] Base(x) = "x4" -> {"c1"} [] Base(x) = "x5" -> {"l3"} [] Base(x) = "x6" -> {"l4"} [] OTHER -> {}
 VARIABLES active, threshold, blocked, times, now, obs, everBlocked, allowedAt, epochSeen
 vars == <<active, threshold, blocked, times, now, obs, everBlocked, allowedAt, epochSeen>>
 MaxL(S) == IF S = {} THEN 0 ELSE CHOOSE l \in 1..3 : (\E s \in S : Level(s) = l) /\ \A s \in S : Level(s) <= l
